@@ -496,12 +496,9 @@ func (hookC13) event(x *fleetExec, e engine.Event) bool {
 		if src == nil || src.mkey == nd.mkey || (nd.exact() && !src.exact()) {
 			return true
 		}
-		// mappings of different kinds, or of the same kind with clearly different accuracy
-		if src.spec.Map == nd.spec.Map {
-			a, b := src.alpha(), nd.alpha()
-			if math.Abs(a-b) < 1e-3*math.Max(a, b) || src.spec.ByGam || nd.spec.ByGam {
-				return true
-			}
+		// mappings of different kinds, of clearly different accuracy, or with the same base and another offset
+		if diff, ok := clearlyDifferent(&src.spec, &nd.spec, true); !ok || !diff {
+			return true
 		}
 		srcBefore := x.snapSketch(src.real, "merge-arg-before")
 		x.lib("MergeWith", sig, func() {
